@@ -66,8 +66,8 @@ MANIFEST = dict(
     note="Trusted: Lean kernel + propext/Classical.choice/Quot.sound; tools/extract; the differential harness and ld "
          "--wrap; glibc. Serializer and parser are parameters (other properties). Allocation failure is C08. The model "
          "is hand-written: theorems are about the model, the correspondence run is testing. Tie by translation (new): _json_object_to_fd is translated from clang's typed AST of the current source into Lean on every run (tools/extract/c2lean.py -> Generated/Translated.lean; the write loop becomes a recursive definition over explicit fuel, write's answers are inputs, one per iteration) and Lemmas/TranslatedFd.lean proves by induction over the schedule of OS answers that Model/FdIO.lean's write side returns the same value and issues exactly the same write(fd, json_str + off, req) calls in order (writeLoop_agrees, toFdCore_agrees); rebuilt and axiom-audited with the property theorems. The read side (json_object_from_fd_ex) is not translated yet.",
-    technique="Lean 4 proof (loop invariants by induction over OS schedules, refinement of a schedule-level spec) +  + agreement theorems with Lean definitions translated from the current C source (clang AST) on every run"
-              "model/implementation correspondence run with interposed read/write",
+    technique="Lean 4 proof (loop invariants by induction over OS schedules, refinement of a schedule-level spec) + "
+              "model/implementation correspondence run with interposed read/write + agreement theorems with Lean definitions translated from the current C source (clang AST) on every run",
     design="6/C20")
 
 _H = {"bin": None, "env": None}
